@@ -34,7 +34,7 @@ def fixed_cases(tier):
 
 
 def n_generated(tier):
-    return 2000 if tier == "quick" else 30000
+    return 2000 if tier == "quick" else 14000
 
 
 def strategy(tier):
